@@ -26,6 +26,10 @@ RULES = {
              'replicate-leave for the other roles',
     'C07.f': 'the loop that waits for the candidate\'s acknowledgements re-tests is_eligible() in every iteration, and that test '
              'dominates the timeout claim (election_win) inside the loop',
+    'C07.g': 'the election id (Databases.process_id) is the node\'s start time at millisecond resolution or finer: it originates from '
+             'Duration::as_millis / as_micros / as_nanos of the clock read at start-up (two nodes started in the same second must still '
+             'compare as older / younger, equal ids make both ignore the other\'s candidacy)',
+    'C07.h': 'every node\'s member table names one primary: a store of a possibly-Primary member demotes the others first (same rule as C14.e)',
     'C07.e': 'each wait loop of the election has an exit controlled by a counter incremented in the loop and compared with the '
              'election timeout; the single-member shortcut wins at once',
 }
@@ -93,6 +97,13 @@ def templates_in(m, b, region=None):
 
 
 def run(ck, m):
+    _run(ck, m)
+    process_id_rule(ck, m)
+    from props import C14
+    C14.single_primary(ck, m, rule='C07.h')
+
+
+def _run(ck, m):
     for k, v in RULES.items():
         ck.rule(k, v)
     P = m.prog
@@ -397,3 +408,32 @@ def loop_bounded(b, h, body):
             if counter and leaves:
                 return True, 'exit controlled by a counter incremented in the loop and compared with the election timeout'
     return False, 'no exit of this loop is controlled by a growing counter compared with the election timeout'
+
+
+
+def process_id_rule(ck, m):
+    P = m.prog
+    n = 0
+    for b in P.user_bodies():
+        if b.id.startswith(('nundb::client::', 'nundb::command_line::')):
+            continue
+        for bi, t in b.calls():
+            cb = P.bodies.get(callee(t))
+            if cb is None or not cb.id.endswith('bo::Databases::new'):
+                continue
+            # which argument becomes process_id: the u128 parameter
+            idx = [i for i in range(1, cb.argc + 1) if cb.locals[i] == 'u128']
+            if len(idx) != 1:
+                continue
+            n += 1
+            a = t['args'][idx[0] - 1]
+            kinds = set()
+            for r in origins(b, a, stop_at_calls=True) | origins(b, a):
+                if r[0] == 'call':
+                    kinds.add(callee_decl(b.term(r[1])).split('::')[-1])
+            fine = bool(kinds & {'as_millis', 'as_micros', 'as_nanos'}) and not (kinds & {'as_secs', 'as_secs_f64', 'as_secs_f32', 'subsec_millis'})
+            ck.ob('C07.g', short(b.id), 'election-id-resolution', fine,
+                  'the election id is the start time read with %s' % sorted(kinds & {'as_millis', 'as_micros', 'as_nanos'}) if fine else
+                  'the election id is derived through %s: nodes started within the same second get equal ids, each treats the other\'s candidacy '
+                  'as its own message and both end as primary' % sorted(kinds), b.loc(bi))
+    ck.floor('C07.g', n, 1, 'constructions of Databases with an election id')
